@@ -123,6 +123,19 @@ var diffReaders = []reader{{"jd diff", jd.ReadDiffString}, {"JSON Patch", jd.Rea
 
 // mutateText applies line- and byte-level damage to a valid text.
 func mutateText(r *gen.RNG, s string) string {
+	if r.Chance(0.08) {
+		// the same text as a Windows editor saves it: CR LF line ends, sometimes with blank lines
+		t := strings.ReplaceAll(s, "\n", "\r\n")
+		switch r.Intn(4) {
+		case 0:
+			t += "\r\n"
+		case 1:
+			t = "\r\n" + t
+		case 2:
+			t = strings.Replace(t, "\r\n", "\r\n\r\n", 1)
+		}
+		return t
+	}
 	lines := strings.Split(s, "\n")
 	for k := r.Range(1, 3); k > 0; k-- {
 		switch r.Intn(14) {
